@@ -441,6 +441,11 @@ async fn mqtt_connect(
 
 #[cfg(feature = "verif")]
 impl EventLoop {
+    /// Number of user requests waiting in the request channel.
+    pub fn verif_channel_len(&self) -> usize {
+        self.requests_rx.len()
+    }
+
     /// Canonical rendering of everything that decides the loop's future behaviour
     /// (no wall-clock instants). The request channel's content is known to the harness.
     pub fn verif_digest(&self) -> String {
